@@ -269,6 +269,9 @@ func C13(run *core.Run) {
 			&mocrelay.ClientEventMsg{Event: ev(4, 1)},
 			&mocrelay.ClientCloseMsg{SubscriptionID: "s1"},
 			&mocrelay.ClientEventMsg{Event: ev(5, 5)},
+			&mocrelay.ClientCloseMsg{SubscriptionID: "s1"},    // a repeated CLOSE
+			&mocrelay.ClientCloseMsg{SubscriptionID: "never"}, // a CLOSE of an id that was never opened
+			&mocrelay.ClientReqMsg{SubscriptionID: "s3", ReqFilters: []*mocrelay.ReqFilter{{}}},
 		}
 	}
 	names := []string{"default", "cache", "router", "sqlite", "merge2", "merge3"}
@@ -299,6 +302,14 @@ func C13(run *core.Run) {
 				c.cleanup()
 			}
 		}
+	}
+	// several sessions on one router: a subscriber whose peer has stalled, publishers that keep
+	// publishing matching events; cancelling the stalled session must end it promptly
+	for round := 0; round < 3; round++ {
+		line := routerStalledSubscriberCut(conc, round)
+		lines = append(lines, line)
+		run.Add("sessions", 1)
+		distinct.Add(fmt.Sprint("router-multi", round))
 	}
 	var traces []tv.Trace
 	for i, l := range lines {
@@ -393,4 +404,94 @@ func wsStalledPeer(sendTimeout, ping time.Duration) (bool, string) {
 	case <-time.After(5 * time.Second):
 		return false, fmt.Sprintf("SendTimeout %v, PingDuration %v: the handler's session was still running %v after the peer stopped reading", sendTimeout, ping, time.Since(start).Round(time.Millisecond))
 	}
+}
+
+func routerStalledSubscriberCut(conc *abs.Conc, round int) map[string]any {
+	router := mocrelay.NewRouterHandler(2)
+	base, _ := mocrelayGoroutines()
+	type sess struct {
+		cancel context.CancelFunc
+		send   chan mocrelay.ServerMsg
+		recv   chan mocrelay.ClientMsg
+		done   chan error
+	}
+	mk := func() *sess {
+		ctx, cancel := context.WithCancel(context.Background())
+		s := &sess{cancel: cancel, send: make(chan mocrelay.ServerMsg), recv: make(chan mocrelay.ClientMsg), done: make(chan error, 1)}
+		go func() { s.done <- router.ServeNostr(ctx, s.send, s.recv) }()
+		return s
+	}
+	a := mk() // the subscriber; its peer reads the EOSE and then nothing more
+	a.recv <- &mocrelay.ClientReqMsg{SubscriptionID: "all", ReqFilters: []*mocrelay.ReqFilter{{}}}
+	<-a.send
+	var pubs []*sess
+	stop := make(chan struct{})
+	var wg sync.WaitGroup
+	for p := 0; p < 3+round; p++ {
+		s := mk()
+		pubs = append(pubs, s)
+		wg.Add(2)
+		go func() { // draining peer
+			defer wg.Done()
+			for {
+				select {
+				case <-s.send:
+				case <-stop:
+					return
+				}
+			}
+		}()
+		go func(p int) {
+			defer wg.Done()
+			for i := 0; i < 8; i++ {
+				e := conc.Event(abs.Event{ID: fmt.Sprintf("c13m_%d_%d_%d", round, p, i), Author: "a", Kind: 1, TS: int64(i + 1)}, "x")
+				select {
+				case s.recv <- &mocrelay.ClientEventMsg{Event: e}:
+				case <-stop:
+					return
+				case <-time.After(500 * time.Millisecond):
+					return
+				}
+			}
+		}(p)
+	}
+	time.Sleep(30 * time.Millisecond)
+	t0 := time.Now()
+	a.cancel()
+	returned := false
+	select {
+	case <-a.done:
+		returned = true
+	case <-time.After(2 * time.Second):
+	}
+	retIn := time.Since(t0)
+	close(stop)
+	for _, s := range pubs {
+		s.cancel()
+	}
+	for _, s := range pubs {
+		select {
+		case <-s.done:
+		case <-time.After(2 * time.Second):
+			returned = false
+		}
+	}
+	wg.Wait()
+	left := 0
+	deadline := time.Now().Add(2 * time.Second)
+	for {
+		n, _ := mocrelayGoroutines()
+		left = n - base
+		if left <= 0 || time.Now().After(deadline) {
+			break
+		}
+		time.Sleep(2 * time.Millisecond)
+	}
+	if left < 0 {
+		left = 0
+	}
+	rc, rs := mocrelay.VerifRouterRegistrySize(router)
+	return map[string]any{"op": "session", "comp": "router x" + fmt.Sprint(len(pubs)+1), "cut": 0, "fed": 0, "ending": "cancel", "peer": "stalled",
+		"returned": returned, "return_ms": retIn.Milliseconds(), "goroutines_left": left, "registry_conns": rc, "registry_subs": rs,
+		"gauge_conn_delta": 0, "gauge_req_delta": 0, "shape": "router: stalled subscriber cancelled while others publish"}
 }
